@@ -3,6 +3,7 @@ import Req.Client.Compress
 import Req.Client.CompressLegacy
 import Req.Client.CompressReader
 import Req.Client.CompressAttempts
+import Req.Client.CompressFormats
 /-! Driver lanes of C14. -/
 namespace Req.Driver.L.C14
 open Req.Proto Req.Compress
@@ -149,11 +150,58 @@ def laneReader : List String → String
     | _, _, _, _, _ => "bad-op"
   | _ => "bad-op"
 
+
+/-! ### container formats -/
+
+open Req.Compress.Fmt in
+/-- `c14enc gzip <ftext> <hcrc> <extra|-> <name|-> <comment|-> <mtime: 4 bytes> <xfl> <os> <blocks> <last>`
+→ the member; `c14enc deflate <blocks> <last>` → the stored-block stream;
+`c14enc zlib <blocks> <last>` → the same inside an RFC 1950 wrapper. Hex out. -/
+def laneEnc : List String → String
+  | ["gzip", ftext, hcrc, extra, name, comment, mtime, xfl, os, blocks, last] =>
+    let opt (s : String) : Option (Option Bytes) := if s == "-" then some none else (decodeHex s).map some
+    match parseBool ftext, parseBool hcrc, opt extra, opt name, opt comment, decodeHex mtime,
+        xfl.toNat?, os.toNat?, decodeList blocks, decodeHex last with
+    | some ft, some hc, some ex, some nm, some cm, some [m0, m1, m2, m3], some xfl, some os, some bl, some la =>
+      let h : GzHeader := ⟨ft, hc, ex, nm, cm, m0, m1, m2, m3, UInt8.ofNat xfl, UInt8.ofNat os⟩
+      encodeHex (gzMember ieee h bl la)
+    | _, _, _, _, _, _, _, _, _, _ => "bad-op"
+  | ["deflate", blocks, last] =>
+    match decodeList blocks, decodeHex last with
+    | some bl, some la => encodeHex (stored bl la)
+    | _, _ => "bad-op"
+  | ["zlib", blocks, last] =>
+    match decodeList blocks, decodeHex last with
+    | some bl, some la => encodeHex (zlibWrap (stored bl la) (adler32 (bl.flatten ++ la)))
+    | _, _ => "bad-op"
+  | _ => "bad-op"
+
+open Req.Compress.Fmt in
+/-- `c14dec <gzip|deflate> <wire> <fin>` → `data=<hex> t=<end>`: what the reader of that coding
+delivers for a body `wire` that ends with `fin`; `unmodelled` when the stream leaves the
+modelled subset (a Huffman-coded block). -/
+def laneDec : List String → String
+  | [fmt, wire, fin] =>
+    match decodeHex wire, parseTerm fin with
+    | some w, some f =>
+      let r : Option (Bytes × Term) :=
+        if fmt == "gzip" then some ((gzip ieee).mean f w gInit)
+        else if fmt == "deflate" then some (deflate.mean f w .hdr)
+        else none
+      match r with
+      | none => "bad-op"
+      | some (d, t) =>
+        if t == errUnmodelled then "unmodelled" else "data=" ++ encodeHex d ++ " t=" ++ t.show
+    | _, _ => "bad-op"
+  | _ => "bad-op"
+
 def lanes : List (String × (List String → String)) := [
   ("c14select", laneSelect),
   ("c14x", exchange false),
   ("c14xlegacy", exchange true),
   ("c14seq", sequence),
+  ("c14enc", laneEnc),
+  ("c14dec", laneDec),
   ("c14reader", laneReader)
 ]
 
